@@ -1376,6 +1376,8 @@ int scpiParser_parseProgramData(lex_state_t * state, scpi_token_t * token) {
                 token->len += wsLen + suffixLen;
                 token->type = SCPI_TOKEN_DECIMAL_NUMERIC_PROGRAM_DATA_WITH_SUFFIX;
                 result = token->len;
+            } else {
+                realLen += wsLen;
             }
         }
     }
